@@ -46,3 +46,252 @@ Qed.
 
 Theorem uf_find_fuel_ok : forall m k, uf_find_fuel (S (length m)) m k <> None.
 Proof. intros. apply uf_find_fuel_enough. pose proof (nonself_le_length m). lia. Qed.
+
+(* ------------------------------------------------------------------ functional correctness *)
+
+(* [f] = abstract representative function, [rank] = a witness that links are acyclic.
+   [P f rank c m]: every proper link stays inside its class and increases the rank; every root
+   of rank >= c is its class representative.  ([c] > 0 only while [find] has temporarily turned
+   nodes of smaller rank into self-loops.) *)
+Definition isroot (m : links) (x : N) : Prop := alookup x m = None \/ alookup x m = Some x.
+
+Definition P (f : N -> N) (rank : N -> nat) (c : nat) (m : links) : Prop :=
+  (forall x v, alookup x m = Some v -> v <> x -> f v = f x /\ rank x < rank v) /\
+  (forall x, c <= rank x -> isroot m x -> f x = x).
+
+Definition UFInv (m : links) (f : N -> N) : Prop := exists rank, P f rank 0 m.
+
+Lemma N_eqb_false a b : a <> b -> N.eqb a b = false.
+Proof. intro H. apply N.eqb_neq. exact H. Qed.
+
+Lemma find_spec f rank : forall fuel m k c m' r,
+  c <= rank k -> P f rank c m -> uf_find_fuel fuel m k = Some (m', r) ->
+  r = f k /\ P f rank c m' /\ isroot m' r /\ (r = k \/ rank k < rank r) /\
+  (forall x, rank x < rank k -> alookup x m' = alookup x m).
+Proof.
+  induction fuel as [|fuel IH]; intros m k c m' r Hc HP H; [discriminate|].
+  cbn in H. destruct HP as (HL & HR).
+  assert (Base : isroot m k -> m' = aset k k m -> r = k ->
+                 r = f k /\ P f rank c m' /\ isroot m' r /\ (r = k \/ rank k < rank r) /\
+                 (forall x, rank x < rank k -> alookup x m' = alookup x m)).
+  { intros Hroot -> ->. split; [symmetry; apply HR; assumption|]. split; [|split; [|split]].
+    - split.
+      + intros x v. rewrite alookup_aset. destruct (N.eqb x k) eqn:E.
+        * apply N.eqb_eq in E. subst. intros Hv Hne. inversion Hv. congruence.
+        * apply HL.
+      + intros x Hx. unfold isroot. rewrite alookup_aset. destruct (N.eqb x k) eqn:E.
+        * apply N.eqb_eq in E. subst. intros _. apply HR; assumption.
+        * intro Hr. apply HR; assumption.
+    - right. rewrite alookup_aset, N.eqb_refl. reflexivity.
+    - left. reflexivity.
+    - intros x Hx. rewrite alookup_aset. rewrite N_eqb_false; [reflexivity|]. intros ->. lia. }
+  destruct (alookup k m) as [next|] eqn:Lk.
+  - destruct (N.eqb k next) eqn:E.
+    + apply N.eqb_eq in E. subst next. inversion H; subst.
+      apply Base; [right; exact Lk|reflexivity|reflexivity].
+    + apply N.eqb_neq in E.
+      destruct (uf_find_fuel fuel (aset k k m) next) as [[m2 r2]|] eqn:R; [|discriminate].
+      inversion H; subst m' r2. clear H.
+      destruct (HL k next Lk (fun e => E (eq_sym e))) as (Fn & Rn).
+      assert (HP1 : P f rank (rank next) (aset k k m)).
+      { split.
+        - intros x v. rewrite alookup_aset. destruct (N.eqb x k) eqn:Ex.
+          + apply N.eqb_eq in Ex. subst. intros Hv Hne. inversion Hv. congruence.
+          + apply HL.
+        - intros x Hx. unfold isroot. rewrite alookup_aset. destruct (N.eqb x k) eqn:Ex.
+          + apply N.eqb_eq in Ex. subst. lia.
+          + intro Hr. apply HR; [lia|exact Hr]. }
+      destruct (IH (aset k k m) next (rank next) m2 r (le_n _) HP1 R)
+        as (Er & (HL2 & HR2) & Hroot2 & Hrk & Hagree).
+      assert (Hrr : rank next <= rank r) by (destruct Hrk as [->|]; lia).
+      assert (Fr : f r = r) by (apply HR2; assumption).
+      split; [congruence|]. split; [|split; [|split]].
+      * split.
+        -- intros x v. rewrite alookup_aset. destruct (N.eqb x k) eqn:Ex.
+           ++ apply N.eqb_eq in Ex. subst x. intros Hv Hne. inversion Hv; subst v.
+              split; [congruence|lia].
+           ++ apply HL2.
+        -- intros x Hx. unfold isroot. rewrite alookup_aset. destruct (N.eqb x k) eqn:Ex.
+           ++ apply N.eqb_eq in Ex. subst x. intros [Hr|Hr]; [discriminate|]. inversion Hr. congruence.
+           ++ apply N.eqb_neq in Ex. intro Hr.
+              destruct (le_lt_dec (rank next) (rank x)) as [Hge|Hlt]; [apply HR2; assumption|].
+              apply HR; [exact Hx|]. unfold isroot in *. rewrite (Hagree x Hlt) in Hr.
+              rewrite alookup_aset, N_eqb_false in Hr by exact Ex. exact Hr.
+      * unfold isroot. rewrite alookup_aset. destruct (N.eqb r k) eqn:Ex.
+        -- apply N.eqb_eq in Ex. subst. right. reflexivity.
+        -- exact Hroot2.
+      * right. lia.
+      * intros x Hx. rewrite alookup_aset, N_eqb_false by (intros ->; lia).
+        rewrite Hagree by lia. rewrite alookup_aset, N_eqb_false by (intros ->; lia). reflexivity.
+  - inversion H; subst. apply Base; [left; exact Lk|reflexivity|reflexivity].
+Qed.
+
+Lemma uf_find_eq m k : exists m' r, uf_find m k = (m', r) /\ uf_find_fuel (S (length m)) m k = Some (m', r).
+Proof.
+  unfold uf_find. pose proof (uf_find_fuel_ok m k) as H.
+  destruct (uf_find_fuel (S (length m)) m k) as [[m' r]|]; [|congruence].
+  exists m', r. split; reflexivity.
+Qed.
+
+(* find returns the class representative and leaves the abstract partition unchanged *)
+Theorem uf_find_correct m f k :
+  UFInv m f -> UFInv (fst (uf_find m k)) f /\ snd (uf_find m k) = f k.
+Proof.
+  intros (rank & HP). destruct (uf_find_eq m k) as (m' & r & -> & E).
+  destruct (find_spec f rank _ m k 0 m' r (Nat.le_0_l _) HP E) as (Er & HP' & _).
+  cbn. split; [exists rank; exact HP'|exact Er].
+Qed.
+
+Lemma UFInv_idem m f k : UFInv m f -> f (f k) = f k.
+Proof.
+  intros (rank & HP). destruct (uf_find_eq m k) as (m' & r & _ & E).
+  destruct (find_spec f rank _ m k 0 m' r (Nat.le_0_l _) HP E) as (Er & (_ & HR) & Hroot & _).
+  subst r. apply HR; [lia|exact Hroot].
+Qed.
+
+(* the abstract effect of union: b's class is relabelled with a's representative *)
+Definition relabel (f : N -> N) (a b : N) (x : N) : N := if N.eqb (f x) (f b) then f a else f x.
+
+Theorem uf_union_correct m f a b :
+  UFInv m f ->
+  UFInv (fst (uf_union m a b)) (relabel f a b) /\ snd (uf_union m a b) = f a.
+Proof.
+  intros (rank & HP). unfold uf_union.
+  destruct (uf_find_eq m a) as (m1 & i & -> & E1).
+  destruct (find_spec f rank _ m a 0 m1 i (Nat.le_0_l _) HP E1) as (Ei & HP1 & Hri & _).
+  destruct (uf_find_eq m1 b) as (m2 & j & -> & E2).
+  destruct (find_spec f rank _ m1 b 0 m2 j (Nat.le_0_l _) HP1 E2) as (Ej & (HL2 & HR2) & Hrj & _).
+  cbn. split; [|exact Ei].
+  assert (Fi : f i = i) by (destruct HP1 as (_ & HR1); apply HR1; [lia|exact Hri]).
+  assert (Fj : f j = j) by (apply HR2; [lia|exact Hrj]).
+  subst i j. set (i := f a) in *. set (j := f b) in *.
+  destruct (N.eq_dec i j) as [Eij|Nij].
+  - (* same class already *)
+    exists rank. split.
+    + intros x v. rewrite alookup_aset. destruct (N.eqb x j) eqn:Ex.
+      * apply N.eqb_eq in Ex. subst x. intros Hv Hne. inversion Hv. congruence.
+      * intros Hv Hne. destruct (HL2 x v Hv Hne) as (Fv & Rv). split; [|exact Rv].
+        unfold relabel. fold j. rewrite Fv. reflexivity.
+    + intros x _ Hr. unfold relabel. fold i j.
+      assert (Fx : f x = x).
+      { unfold isroot in Hr. rewrite alookup_aset in Hr. destruct (N.eqb x j) eqn:Ex.
+        - apply N.eqb_eq in Ex. subst x. exact Fj.
+        - apply HR2; [lia|exact Hr]. }
+      rewrite Fx. destruct (N.eqb x j) eqn:Ex; [apply N.eqb_eq in Ex; congruence|reflexivity].
+  - exists (fun x => if N.eqb (f x) i then rank x + S (rank j) else rank x). split.
+    + intros x v. rewrite alookup_aset. destruct (N.eqb x j) eqn:Ex.
+      * apply N.eqb_eq in Ex. subst x. intros Hv Hne. inversion Hv; subst v.
+        unfold relabel. fold i j. rewrite Fi, Fj, N.eqb_refl, (N_eqb_false i j Nij), N.eqb_refl.
+        split; [reflexivity|]. rewrite (N_eqb_false j i) by congruence. lia.
+      * intros Hv Hne. destruct (HL2 x v Hv Hne) as (Fv & Rv). unfold relabel. fold i j.
+        rewrite Fv. split; [reflexivity|]. destruct (N.eqb (f x) i); lia.
+    + intros x _ Hr. unfold isroot in Hr. rewrite alookup_aset in Hr.
+      destruct (N.eqb x j) eqn:Ex.
+      * apply N.eqb_eq in Ex. subst x. destruct Hr as [Hr|Hr]; [discriminate|]. inversion Hr. congruence.
+      * assert (Fx : f x = x) by (apply HR2; [lia|exact Hr]).
+        unfold relabel. fold i j. rewrite Fx, Ex. reflexivity.
+Qed.
+
+Theorem uf_same_correct m f a b :
+  UFInv m f -> UFInv (fst (uf_same m a b)) f /\ snd (uf_same m a b) = N.eqb (f a) (f b).
+Proof.
+  intro H. unfold uf_same.
+  pose proof (uf_find_correct m f a H) as (H1 & E1). destruct (uf_find m a) as [m1 i]. cbn in *.
+  pose proof (uf_find_correct m1 f b H1) as (H2 & E2). destruct (uf_find m1 b) as [m2 j]. cbn in *.
+  subst. split; [exact H2|reflexivity].
+Qed.
+
+(* the first argument's root survives union *)
+Theorem uf_union_keeps_first_root m f a b :
+  UFInv m f ->
+  let '(m', i) := uf_union m a b in
+  i = uf_root m a /\ uf_root m' a = i /\ uf_root m' b = i.
+Proof.
+  intro H. pose proof (uf_union_correct m f a b H) as (H' & Ei).
+  destruct (uf_union m a b) as [m' i]. cbn in *.
+  unfold uf_root. rewrite (proj2 (uf_find_correct m f a H)).
+  rewrite (proj2 (uf_find_correct m' _ a H')), (proj2 (uf_find_correct m' _ b H')).
+  unfold relabel. rewrite N.eqb_refl. split; [exact Ei|]. split; [|symmetry; exact Ei].
+  destruct (N.eqb (f a) (f b)); congruence.
+Qed.
+
+(* ------------------------------------------------------------------ histories *)
+
+Inductive eqcl (R : N -> N -> Prop) : N -> N -> Prop :=
+| eq_base a b : R a b -> eqcl R a b
+| eq_refl' a : eqcl R a a
+| eq_sym' a b : eqcl R a b -> eqcl R b a
+| eq_trans' a b c : eqcl R a b -> eqcl R b c -> eqcl R a c.
+
+Lemma eqcl_mono (R S : N -> N -> Prop) : (forall a b, R a b -> S a b) -> forall a b, eqcl R a b -> eqcl S a b.
+Proof.
+  intros H a b E. induction E; [apply eq_base; auto|apply eq_refl'|apply eq_sym'; assumption|
+                                eapply eq_trans'; eassumption].
+Qed.
+
+Lemma UFInv_empty : UFInv [] (fun x => x).
+Proof. exists (fun _ => 0). split; [intros x v H; discriminate|reflexivity]. Qed.
+
+Lemma relabel_eqcl f (R : N -> N -> Prop) a0 b0 :
+  (forall a b, f a = f b <-> eqcl R a b) ->
+  forall a b, relabel f a0 b0 a = relabel f a0 b0 b <->
+              eqcl (fun x y => R x y \/ (x = a0 /\ y = b0)) a b.
+Proof.
+  intros HR a b. set (R1 := fun x y => R x y \/ (x = a0 /\ y = b0)).
+  assert (Up : forall x y, f x = f y -> eqcl R1 x y).
+  { intros x y E. apply (eqcl_mono R R1); [intros; left; assumption|]. apply HR. exact E. }
+  assert (E0 : eqcl R1 a0 b0) by (apply eq_base; right; split; reflexivity).
+  split.
+  - unfold relabel. intro E.
+    destruct (N.eqb (f a) (f b0)) eqn:Ea; destruct (N.eqb (f b) (f b0)) eqn:Eb.
+    + apply N.eqb_eq in Ea, Eb. apply Up. congruence.
+    + apply N.eqb_eq in Ea.
+      eapply eq_trans'; [apply Up; exact Ea|]. eapply eq_trans'; [apply eq_sym'; exact E0|]. apply Up. exact E.
+    + apply N.eqb_eq in Eb.
+      eapply eq_trans'; [apply Up; exact E|]. eapply eq_trans'; [exact E0|]. apply Up. congruence.
+    + apply Up. exact E.
+  - intro E. induction E as [x y [Hxy|(-> & ->)]|x|x y _ IH|x y z _ IH1 _ IH2].
+    + assert (Exy : f x = f y) by (apply HR; apply eq_base; exact Hxy).
+      unfold relabel. rewrite Exy. reflexivity.
+    + unfold relabel. rewrite N.eqb_refl. destruct (N.eqb (f a0) (f b0)); reflexivity.
+    + reflexivity.
+    + symmetry. exact IH.
+    + congruence.
+Qed.
+
+Lemma uf_exec_inv : forall ops m f (R : N -> N -> Prop),
+  UFInv m f -> (forall a b, f a = f b <-> eqcl R a b) ->
+  exists f', UFInv (uf_exec m ops) f' /\
+             forall a b, f' a = f' b <-> eqcl (fun x y => R x y \/ In (x, y) (unions_of ops)) a b.
+Proof.
+  induction ops as [|op ops IH]; intros m f R HI HR.
+  - exists f. split; [exact HI|]. intros a b. rewrite HR. split; apply eqcl_mono; cbn; tauto.
+  - unfold uf_exec. cbn [fold_left]. fold (uf_exec (uf_step m op) ops). destruct op as [a0 b0|a0|a0 b0].
+    + destruct (IH (uf_step m (UUnion a0 b0)) (relabel f a0 b0)
+                   (fun x y => R x y \/ (x = a0 /\ y = b0))
+                   (proj1 (uf_union_correct m f a0 b0 HI)) (relabel_eqcl f R a0 b0 HR)) as (f' & HI' & HR').
+      exists f'. split; [exact HI'|]. intros a b. rewrite HR'.
+      split; apply eqcl_mono; cbn; intros x y; intuition congruence.
+    + destruct (IH (uf_step m (UFind a0)) f R (proj1 (uf_find_correct m f a0 HI)) HR) as (f' & HI' & HR').
+      exists f'. split; [exact HI'|exact HR'].
+    + destruct (IH (uf_step m (USame a0 b0)) f R (proj1 (uf_same_correct m f a0 b0 HI)) HR) as (f' & HI' & HR').
+      exists f'. split; [exact HI'|exact HR'].
+Qed.
+
+(* after ANY history of union / find / same_set calls starting from the empty structure,
+   same_set answers exactly the equivalence closure of the unions performed *)
+Theorem uf_same_set_spec ops a b :
+  snd (uf_same (uf_exec [] ops) a b) = true <-> eqcl (fun x y => In (x, y) (unions_of ops)) a b.
+Proof.
+  destruct (uf_exec_inv ops [] (fun x => x) (fun _ _ => False) UFInv_empty) as (f & HI & HR).
+  { intros x y. split; [intros ->; apply eq_refl'|]. intro E. induction E; [contradiction|reflexivity|congruence|congruence]. }
+  rewrite (proj2 (uf_same_correct _ f a b HI)). rewrite N.eqb_eq, HR.
+  split; apply eqcl_mono; tauto.
+Qed.
+
+Theorem uf_reachable_inv ops : exists f, UFInv (uf_exec [] ops) f.
+Proof.
+  destruct (uf_exec_inv ops [] (fun x => x) (fun _ _ => False) UFInv_empty) as (f & HI & _).
+  { intros x y. split; [intros ->; apply eq_refl'|]. intro E. induction E; [contradiction|reflexivity|congruence|congruence]. }
+  exists f. exact HI.
+Qed.
